@@ -19,7 +19,7 @@ from elementpath.namespaces import XSD_NAMESPACE, XPATH_FUNCTIONS_NAMESPACE, XML
 from elementpath.namespaces import get_expanded_name
 from elementpath.datatypes import AnyAtomicType, AnyURI, UntypedAtomic, ArithmeticProxy, \
     YearMonthDuration, DayTimeDuration, Duration, AbstractDateTime
-from elementpath.helpers import collapse_white_spaces
+from elementpath.helpers import collapse_white_spaces, checked_integer
 from elementpath.sequences import xlist
 from elementpath.xpath_nodes import AttributeNode, ElementNode
 from elementpath.xpath_context import XPathSchemaContext
@@ -386,7 +386,7 @@ class AsteriskToken(XPathToken):
             try:
                 if isinstance(op2, (YearMonthDuration, DayTimeDuration)):
                     return op2 * op1
-                return op1 * op2  # type:ignore[operator]
+                return checked_integer(op1 * op2)  # type:ignore[operator]
             except TypeError as err:
                 if isinstance(context, XPathSchemaContext):
                     return []
